@@ -16,6 +16,8 @@
 //!   frag b|e <readtype> <fir><fin><con><uns> <seq> <iin1> <iin2>           ReadHandler::begin/end_fragment
 //!   cleared <id>                             OutstationApplication::event_cleared
 //!   conn <state>                             master channel ClientState
+//!   oconn connected|disconnected             the outstation's session on a TCP connection started / ended
+//!   popen                                    the proxy has opened a new TCP connection to the outstation
 //!   oi solwait|solconf|soltimeout|unsolwait|unsolconf|unsoltimeout <seq> / oi solnewreq
 //!                                            OutstationInformation: confirm waits entered and resolved
 //!   cutfired <dir>                           an armed byte-offset cut fired
@@ -336,6 +338,22 @@ impl Listener<ClientState> for ConnListener {
 // ------------------------------------------------------------------------------------------------
 // outstation side
 
+/// the TCP server tells when a session of the outstation starts and ends (for either reason: link
+/// error, or replaced by a newer connection)
+struct OutConnListener(Trace);
+impl Listener<ConnectionState> for OutConnListener {
+    fn update(&mut self, value: ConnectionState) -> MaybeAsync<()> {
+        self.0.log(format!(
+            "oconn {}",
+            match value {
+                ConnectionState::Connected => "connected",
+                ConnectionState::Disconnected => "disconnected",
+            }
+        ));
+        MaybeAsync::ready(())
+    }
+}
+
 struct OutApp(Trace);
 impl OutstationApplication for OutApp {
     fn event_cleared(&mut self, id: u64) {
@@ -556,6 +574,7 @@ async fn proxy(listener: TcpListener, target: SocketAddr, ctl: Arc<ProxyCtl>) {
                 Ok(o) => o,
                 Err(_) => return,
             };
+            ctl.trace.log("popen".to_string());
             let _ = m.set_nodelay(true);
             let _ = o.set_nodelay(true);
             let (mut mr, mut mw) = m.into_split();
@@ -811,7 +830,7 @@ async fn run_script(s: &Script, trace: Trace) {
         Box::new(OutApp(trace.clone())),
         Box::new(OutInfo(trace.clone())),
         Box::new(Controls(trace.clone())),
-        NullListener::create(),
+        Box::new(OutConnListener(trace.clone())),
         AddressFilter::Any,
     ) {
         Ok(o) => o,
